@@ -703,3 +703,140 @@ var ruleH5 = &Rule{
 }
 
 func init() { register(ruleF6); register(ruleD9); register(ruleO3); register(ruleH5) }
+
+// ---------------------------------------------------------------------------------
+// D8
+
+var lossyFuncs = []string{"Unquote", "strconv.Atoi", "strconv.Parse", "strings.ToLower", "strings.ToUpper", "strings.Trim", "strings.Title", "strings.Fields", "strings.Split",
+	"strings.Replace", "strings.Map", "time.ParseDuration", "time.Parse", "regexp.", "path.Clean", "filepath.Clean", "strings.EqualFold", "strings.ToValidUTF8"}
+
+// calledInSlice collects the functions called in the backward slice of v (through static module callees' returns).
+func calledInSlice(v ssa.Value, out map[string]bool, seen map[ssa.Value]bool, depth int) {
+	if v == nil || seen[v] || depth > 40 {
+		return
+	}
+	seen[v] = true
+	if call, ok := v.(*ssa.Call); ok {
+		com := call.Common()
+		if sc := com.StaticCallee(); sc != nil {
+			out[sc.String()] = true
+			for _, b := range sc.Blocks {
+				for _, ins := range b.Instrs {
+					if r, ok := ins.(*ssa.Return); ok {
+						for _, rv := range r.Results {
+							calledInSlice(rv, out, seen, depth+1)
+						}
+					}
+				}
+			}
+		} else if com.IsInvoke() {
+			out[com.Method.FullName()] = true
+		}
+	}
+	switch x := v.(type) {
+	case *ssa.Alloc:
+		if refs := x.Referrers(); refs != nil {
+			for _, r := range *refs {
+				if st, ok := r.(*ssa.Store); ok && st.Addr == ssa.Value(x) {
+					calledInSlice(st.Val, out, seen, depth+1)
+				}
+			}
+		}
+	}
+	if ins, ok := v.(ssa.Instruction); ok {
+		for _, op := range ins.Operands(nil) {
+			if *op != nil {
+				calledInSlice(*op, out, seen, depth+1)
+			}
+		}
+	}
+}
+
+var ruleD8 = &Rule{
+	ID:    "D8",
+	Floor: 1,
+	Doc: "terms are shared only when they are the same term: where a translator de-duplicates query terms through a string-keyed table kept in planner state (a lookup and an insert on the same map field in one function — the TraceQL planner shares one bit of its condition bit set between repeated terms), the key must be a faithful rendering of the term. " +
+		"The backward slice of the key expression (through helper functions) must not pass through a decoding / normalising function (Unquote, strconv parsing, case folding, trimming, splitting, regexp): such functions are many-to-one, two different terms (the string \"5\" and the number 5) then share one slot, the second one loses its own comparison and is evaluated as the first",
+	Run: func(c *Ctx) []Obl {
+		var obls []Obl
+		var kk keyer
+		for _, fn := range liveModuleFuncs(c, "reader") {
+			// map fields updated and looked up in this function
+			type site struct {
+				key ssa.Value
+				pos token.Pos
+			}
+			upd := map[string][]site{}
+			look := map[string][]site{}
+			mapField := func(m ssa.Value) string {
+				u, ok := m.(*ssa.UnOp)
+				if !ok || u.Op != token.MUL {
+					return ""
+				}
+				fa, ok := u.X.(*ssa.FieldAddr)
+				if !ok {
+					return ""
+				}
+				mt, ok := u.Type().Underlying().(*types.Map)
+				if !ok {
+					return ""
+				}
+				if b, ok := mt.Key().Underlying().(*types.Basic); !ok || b.Info()&types.IsString == 0 {
+					return ""
+				}
+				return fieldKey(fa.X.Type(), fa.Field)
+			}
+			for _, b := range fn.Blocks {
+				for _, ins := range b.Instrs {
+					switch x := ins.(type) {
+					case *ssa.MapUpdate:
+						if k := mapField(x.Map); k != "" {
+							upd[k] = append(upd[k], site{x.Key, x.Pos()})
+						}
+					case *ssa.Lookup:
+						if k := mapField(x.X); k != "" {
+							look[k] = append(look[k], site{x.Index, x.Pos()})
+						}
+					}
+				}
+			}
+			var keys []string
+			for k := range upd {
+				if len(look[k]) > 0 {
+					keys = append(keys, k)
+				}
+			}
+			sort.Strings(keys)
+			for _, k := range keys {
+				called := map[string]bool{}
+				seen := map[ssa.Value]bool{}
+				for _, s := range append(append([]site{}, upd[k]...), look[k]...) {
+					calledInSlice(s.key, called, seen, 0)
+				}
+				var names []string
+				for n := range called {
+					names = append(names, n)
+				}
+				sort.Strings(names)
+				bad := ""
+				for _, n := range names {
+					for _, l := range lossyFuncs {
+						if strings.Contains(n, l) {
+							bad = n
+						}
+					}
+				}
+				key := kk.key(ssaName(fn) + " de-duplicates through " + k[strings.LastIndex(k, "/")+1:])
+				if bad != "" {
+					obls = append(obls, Obl{Key: key, Pos: c.pos(upd[k][0].pos), Status: Violation,
+						Msg: "the de-duplication key is computed through " + bad + ", a many-to-one function: two different terms can share one slot and the second is evaluated as the first"})
+				} else {
+					obls = append(obls, Obl{Key: key, Pos: c.pos(upd[k][0].pos), Status: OK, Msg: "key built from: " + strings.Join(names, ", ")})
+				}
+			}
+		}
+		return obls
+	},
+}
+
+func init() { register(ruleD8) }
